@@ -589,6 +589,7 @@ def check(model, results):
         else:
             j = max(k for k in range(len(offs)) if offs[k] <= model["cut"])
             inc("probe.cut_in_record_header" if model["cut"] - offs[j] < 16 else "probe.cut_in_record_data")
+    import bisect
     chunked = False
     offs = pcapfmt.record_offsets(model["recs"])
     for e in res.events:
@@ -598,9 +599,9 @@ def check(model, results):
             b = e.off + e.res
             if b < 24:
                 inc("probe.chunk_in_global_header")
-            elif b < offs[-1] and b not in offs:
-                j = max(k for k in range(len(offs)) if offs[k] <= b)
-                if b - offs[j] < 16:
+            elif b < offs[-1]:
+                j = bisect.bisect_right(offs, b) - 1
+                if offs[j] != b and b - offs[j] < 16:
                     inc("probe.chunk_in_record_header")
     if info["modified_written"]:
         inc("probe.modified_then_written")
